@@ -338,16 +338,31 @@ def check_frame(it, c, key, old, selfobj):
         it.ctx.prove(e, f"{key}.frame.{f}", {"kind": "frame", "src": f"self.{f} unchanged"})
 
 
-def _pc_unsat(ctx, timeout_ms=30000):
-    try:
-        from .ctx import guarded_check
-        s = z3.Solver()
-        s.set("timeout", timeout_ms)
-        for p in ctx.pc:
-            s.add(p)
-        return guarded_check(s, timeout_ms) == z3.unsat
-    except Exception:
-        return False
+def _pc_unsat(ctx, timeout_ms=20000):
+    """is the path condition unsatisfiable?  Asked in a z3 context of its own (the answer of the sequence solver depends on
+    what the process-wide context has seen before: the same query was `unsat` in 0.1 s in a fresh process and `unknown`
+    after other tasks had run), with two seeds; anything but a definite `unsat` is False"""
+    from .ctx import _has_quantifier
+    # the quantifier-free conjuncts alone first (fewer hypotheses: their `unsat` carries over, and it is what the solver
+    # can decide at once - the contradiction is typically `x is None` against `x is not None`), then everything
+    for seed, qf_only in ((0, True), (0, False), (11, False)):
+        try:
+            c2 = z3.Context()
+            s = z3.Solver(ctx=c2)
+            s.set("timeout", timeout_ms)
+            s.set("random_seed", seed)
+            for p in ctx.pc:
+                if qf_only and _has_quantifier(p):
+                    continue
+                s.add(p.translate(c2))
+            r = s.check()
+            if r == z3.unsat:
+                return True
+            if r == z3.sat and not qf_only:
+                return False
+        except Exception:
+            pass
+    return False
 
 
 def explore(run_path, max_paths=4000, branch_timeout_ms=1500, prefix=()):
@@ -372,7 +387,8 @@ def explore(run_path, max_paths=4000, branch_timeout_ms=1500, prefix=()):
             # a branch is kept when its feasibility check times out (sound for proofs), and an infeasible branch can run into
             # an ill-typed operation (forcing an Optional that the path condition says is not None): before the function is
             # declared out of reach the path condition gets a long budget - an unsatisfiable one means the path does not exist
-            if getattr(ctx, "feas_stats", None) and ctx.feas_stats[2] > 0 and _pc_unsat(ctx):
+            # (the undecided check may have happened on the parent path: decisions are replayed, not re-checked)
+            if _pc_unsat(ctx):
                 pr.outcome = "end:infeasible (decided with the long budget)"
                 pr.error = None
         pr.vcs = ctx.vcs
